@@ -56,6 +56,8 @@ def plan(tier):
         for rep in ("int32_t", "int64_t", "uint64_t", "float", "double"):
             if rep in INT_MAX and K > INT_MAX[rep]:
                 continue
+            if K >= 2 ** 64:
+                continue  # (the harness takes K as a 64-bit literal as well)
             if tier == "quick" and rnd.random() < 0.5:
                 continue
             implicit = "true" if (rep not in INT_MAX or K >= 10 ** 6) else "false"
